@@ -22,6 +22,7 @@ import (
 	"fmt"
 	"sort"
 	"sync"
+	"sync/atomic"
 	"testing"
 	"time"
 
@@ -38,6 +39,8 @@ type c20In struct {
 	Steps  [][][3]int `json:"steps"`  // per snapshot: list of (name, kind id, content id)
 	Panics [][3]int   `json:"panics"` // oracle: (step, op, name) whose callback panics; op 0 Init 1 Inherit 2 Close
 	Mode   int        `json:"mode"`
+	NameStr []string  `json:"namestr,omitempty"` // object names (default n0, n1, ...)
+	Block   []int     `json:"block,omitempty"`   // group backlog: (step, name) whose Init/Inherit stalls while the later snapshots arrive
 }
 
 type c20StepObs struct {
@@ -52,6 +55,8 @@ type c20Obs struct {
 	Log   [][]int      `json:"log"` // (step, op, name, kind, v, born, prevkind, prevv, prevborn, panics)
 	Steps []c20StepObs `json:"steps"`
 	Crash int          `json:"crash"` // -1, or the step at which a panic escaped the code under test
+	Parked  bool       `json:"parked,omitempty"`  // backlog: the handler did stall inside the callback
+	Stalled bool       `json:"stalled,omitempty"` // backlog: applyConfig was still waiting for queue space when the handler was released
 }
 
 // kind table: id -> (kind name, category id); categories: 0 system 1 business 2 pipeline 3 traffic gate
@@ -84,6 +89,10 @@ var c20 struct {
 	panics map[[3]int]bool
 	log    [][]int
 	bar    chan int
+	block  [2]int // armed when blockOn
+	blockOn bool
+	parked chan struct{}
+	gate   chan struct{}
 }
 
 type c20Identer interface{ c20Ident() (int, int, int) }
@@ -103,16 +112,73 @@ func (o *c20Obj) c20Ident() (int, int, int) {
 	return o.kind, o.v, o.born
 }
 
-func c20NameIdx(s string) int {
-	var i int
-	if _, err := fmt.Sscanf(s, "n%d", &i); err != nil {
-		return -1
+// object names of the running case: index -> name. Default "n<i>"; a case may bring its own
+// table (one-character names, every allowed punctuation, 253 characters, 254 = invalid, ...).
+var c20Names []string
+
+func c20UseNames(n int, table []string) {
+	c20.mu.Lock()
+	defer c20.mu.Unlock()
+	c20Names = make([]string, n)
+	for i := 0; i < n; i++ {
+		if i < len(table) && table[i] != "" {
+			c20Names[i] = table[i]
+		} else {
+			c20Names[i] = fmt.Sprintf("n%d", i)
+		}
 	}
-	return i
+}
+
+func c20Name(i int) string {
+	if i >= 0 && i < len(c20Names) {
+		return c20Names[i]
+	}
+	return fmt.Sprintf("n%d", i)
+}
+
+func c20NameIdx(s string) int {
+	for i, n := range c20Names {
+		if n == s {
+			return i
+		}
+	}
+	return -1
+}
+
+// name pool for the exotic-name stream
+func c20ExoticNames(r *vfRand, n int) []string {
+	long := func(k int, fill string) string {
+		b := make([]byte, k)
+		for i := range b {
+			b[i] = fill[i%len(fill)]
+		}
+		return string(b)
+	}
+	pool := []string{"a", "7", "Z", "-", "~", "_", ".", "a-b_c.d~e", "-lead", "~x", ".hidden", "_u", "0", "x-",
+		long(253, "a"), long(253, "k-_.~9"), long(252, "b"), long(254, "c"), long(300, "d-"), "ab", "A.b"}
+	out := []string{}
+	used := map[string]bool{}
+	for len(out) < n {
+		s := pool[r.Intn(len(pool))]
+		if !used[s] {
+			used[s] = true
+			out = append(out, s)
+		}
+	}
+	return out
 }
 
 // enter records one lifecycle callback and reports whether the oracle wants it to panic.
 func (o *c20Obj) enter(op int, kind int, spec *Spec, prev Object, foreign bool) bool {
+	pan, stall := o.enterLocked(op, kind, spec, prev, foreign)
+	if stall { // group backlog: a slow Init / Inherit - wait until the harness opens the gate
+		c20.parked <- struct{}{}
+		<-c20.gate
+	}
+	return pan
+}
+
+func (o *c20Obj) enterLocked(op int, kind int, spec *Spec, prev Object, foreign bool) (bool, bool) {
 	c20.mu.Lock()
 	defer c20.mu.Unlock()
 	o.kind = kind
@@ -123,7 +189,7 @@ func (o *c20Obj) enter(op int, kind int, spec *Spec, prev Object, foreign bool) 
 		o.born = c20.step
 	}
 	if !c20.on {
-		return false
+		return false, false
 	}
 	name := -1
 	if o.seen {
@@ -144,7 +210,11 @@ func (o *c20Obj) enter(op int, kind int, spec *Spec, prev Object, foreign bool) 
 		flag = 1
 	}
 	c20.log = append(c20.log, []int{c20.step, op, name, k, v, b, pk, pv, pb, flag})
-	return pan
+	stall := c20.blockOn && op != 2 && c20.block == [2]int{c20.step, name}
+	if stall {
+		c20.blockOn = false
+	}
+	return pan, stall
 }
 
 func c20Status() *Status { return &Status{ObjectStatus: struct{}{}} }
@@ -342,6 +412,18 @@ func (x *c20Bar) Inherit(s *Spec, prev Object) {
 }
 func (x *c20Bar) Close() {}
 
+// tick controller (group backlog): present in every snapshot with the snapshot index as content,
+// so that every snapshot yields exactly one event that says which snapshot it belongs to
+type c20Tick struct{}
+
+func (x *c20Tick) Category() ObjectCategory     { return CategoryBusinessController }
+func (x *c20Tick) Kind() string                 { return "C20Tick" }
+func (x *c20Tick) DefaultSpec() interface{}     { return &c20Spec{} }
+func (x *c20Tick) Status() *Status              { return c20Status() }
+func (x *c20Tick) Init(s *Spec)                 {}
+func (x *c20Tick) Inherit(s *Spec, prev Object) {}
+func (x *c20Tick) Close()                       {}
+
 var c20Once sync.Once
 
 func c20Setup() {
@@ -358,17 +440,18 @@ func c20Setup() {
 		Register(&c20Sys{})
 		Register(&c20RealPipe{})
 		Register(&c20Bar{})
+		Register(&c20Tick{})
 	})
 }
 
 func c20Yaml(name string, kind string, v int) string {
-	return fmt.Sprintf("name: %s\nkind: %s\nv: %d\n", name, kind, v)
+	return fmt.Sprintf("name: \"%s\"\nkind: %s\nv: %d\n", name, kind, v)
 }
 
 func c20Config(step [][3]int) map[string]string {
 	cfg := map[string]string{}
 	for _, e := range step {
-		n := fmt.Sprintf("n%d", e[0])
+		n := c20Name(e[0])
 		cfg[n] = c20Yaml(n, c20KindName[e[1]], e[2])
 	}
 	return cfg
@@ -437,7 +520,10 @@ func c20Observe(s *Supervisor, w1 *ObjectEntityWatcher, ev1 *ObjectEntityWatcher
 		reg[n] = e
 	}
 	or.mutex.Unlock()
-	o := c20StepObs{Reg: c20EntsRows(reg), W0: c20EntsRows(s.watcher.Entities()), W1: c20EntsRows(w1.Entities()), Ev1: c20EventRows(ev1)}
+	o := c20StepObs{Reg: c20EntsRows(reg), W0: c20EntsRows(s.watcher.Entities()), W1: [][]int{}, Ev1: c20EventRows(ev1)}
+	if w1 != nil {
+		o.W1 = c20EntsRows(w1.Entities())
+	}
 	sup := [][]int{}
 	s.businessControllers.Range(func(k, v interface{}) bool {
 		n := c20NameIdx(k.(string))
@@ -592,6 +678,7 @@ func c20RunE2E(t *testing.T, in c20In) (obs c20Obs) {
 }
 
 func c20Run(t *testing.T, in c20In) c20Obs {
+	c20UseNames(in.Names, in.NameStr)
 	if in.Mode == 1 {
 		return c20RunE2E(t, in)
 	}
@@ -614,6 +701,7 @@ type c20JoinIn struct {
 	Join    int        `json:"join"`    // NewWatcher starts when this many snapshots have been applied
 	W       int        `json:"w"`       // its filter: 0 business controllers, 1 traffic gates + pipelines
 	Overlap bool       `json:"overlap"` // try to apply snapshot number Join while NewWatcher is running
+	NameStr []string   `json:"namestr,omitempty"`
 }
 
 type c20JoinStep struct {
@@ -629,6 +717,7 @@ type c20JoinObs struct {
 }
 
 func c20RunJoin(in c20JoinIn) (obs c20JoinObs) {
+	c20UseNames(in.Names, in.NameStr)
 	s := &Supervisor{options: &option.Options{}}
 	or := &ObjectRegistry{super: s, entities: map[string]*ObjectEntity{}, watchers: map[string]*ObjectEntityWatcher{}}
 	s.objectRegistry = or
@@ -714,7 +803,7 @@ func c20RunJoin(in c20JoinIn) (obs c20JoinObs) {
 
 func c20GenJoin(r *vfRand, adv bool, tier string) c20JoinIn {
 	base := c20Gen(r, adv, tier)
-	in := c20JoinIn{Names: base.Names, Kinds: base.Kinds, Steps: base.Steps}
+	in := c20JoinIn{Names: base.Names, Kinds: base.Kinds, Steps: base.Steps, NameStr: base.NameStr}
 	in.W = r.Intn(2)
 	in.Overlap = !r.Chance(1, 4)
 	// join preferably right after a non-empty snapshot that is followed by a different one
@@ -728,6 +817,213 @@ func c20GenJoin(r *vfRand, adv bool, tier string) c20JoinIn {
 		in.Join = cands[r.Intn(len(cands))]
 	} else {
 		in.Join = r.Range(0, len(in.Steps))
+	}
+	return in
+}
+
+// ---------------------------------------------------------------- group "backlog"
+//
+// The supervisor's handler stalls inside one Init / Inherit (a slow callback) while the harness
+// keeps applying the following 11-25 snapshots from another goroutine. The registry's event
+// queue (capacity 10) fills up; on correct code applyConfig then WAITS for space, no event is
+// ever dropped. After the gate is opened everything drains; the complete log and the final
+// state are observed. The wait below is bounded: if the scheduler does not let the queue fill
+// in time the run merely misses the stall.
+
+func c20TickOf(ev *ObjectEntityWatcherEvent) int {
+	for _, m := range []map[string]*ObjectEntity{ev.Create, ev.Update} {
+		if e, ok := m["zztick"]; ok {
+			return e.Spec().ObjectSpec().(*c20Spec).V
+		}
+	}
+	return -1
+}
+
+func c20RunBacklog(in c20In) (obs c20Obs) {
+	obs.Crash = -1
+	c20UseNames(in.Names, in.NameStr)
+	s := &Supervisor{options: &option.Options{}}
+	or := &ObjectRegistry{super: s, entities: map[string]*ObjectEntity{}, watchers: map[string]*ObjectEntityWatcher{}}
+	s.objectRegistry = or
+	s.watcher = or.NewWatcher(watcherName, FilterCategory(CategoryBusinessController))
+	s.handleEvent(<-s.watcher.eventChan)
+	c20Begin(in)
+	c20.mu.Lock()
+	c20.parked, c20.gate = make(chan struct{}, 1), make(chan struct{})
+	c20.blockOn = len(in.Block) == 2
+	if c20.blockOn {
+		c20.block = [2]int{in.Block[0], in.Block[1]}
+	}
+	c20.mu.Unlock()
+	n := len(in.Steps)
+	cfgAt := func(t int) map[string]string {
+		cfg := c20Config(in.Steps[t])
+		cfg["zztick"] = c20Yaml("zztick", "C20Tick", t)
+		return cfg
+	}
+	doneCh, quit := make(chan int, n+8), make(chan struct{})
+	var busy, crashed int32
+	go func() { // what Supervisor.run does
+		for {
+			select {
+			case ev := <-s.watcher.eventChan:
+				atomic.StoreInt32(&busy, 1)
+				t := c20TickOf(ev)
+				if t >= 0 {
+					c20SetStep(t)
+				}
+				func() {
+					defer func() {
+						if r := recover(); r != nil {
+							atomic.StoreInt32(&crashed, 1)
+						}
+					}()
+					s.handleEvent(ev)
+				}()
+				doneCh <- t
+				atomic.StoreInt32(&busy, 0)
+			case <-quit:
+				return
+			}
+		}
+	}()
+	waitDone := func() bool {
+		select {
+		case <-doneCh:
+			return true
+		case <-time.After(60 * time.Second):
+			return false
+		}
+	}
+	B := n
+	if len(in.Block) == 2 && in.Block[0] >= 0 && in.Block[0] < n {
+		B = in.Block[0]
+	}
+	ok := true
+	for t := 0; t < B && ok; t++ {
+		or.applyConfig(cfgAt(t))
+		ok = waitDone()
+	}
+	if ok && B < n {
+		or.applyConfig(cfgAt(B))
+		select {
+		case <-c20.parked:
+			obs.Parked = true
+		case <-doneCh: // the armed callback did not happen: nothing stalls
+		case <-time.After(60 * time.Second):
+			ok = false
+		}
+		if obs.Parked {
+			applierDone := make(chan struct{})
+			var applied int32
+			go func() {
+				for t := B + 1; t < n; t++ {
+					or.applyConfig(cfgAt(t))
+					atomic.AddInt32(&applied, 1)
+				}
+				close(applierDone)
+			}()
+			select {
+			case <-applierDone:
+			case <-time.After(25 * time.Millisecond):
+				obs.Stalled = int(atomic.LoadInt32(&applied)) < n-B-1
+			}
+			close(c20.gate)
+			// exactly one event per snapshot is due; on a registry that drops events, stop once nothing more can come
+			deadline := time.After(60 * time.Second)
+			quiet := 0
+			for got := 0; got < n-B && ok && quiet < 3; {
+				select {
+				case <-doneCh:
+					got++
+					quiet = 0
+				case <-deadline:
+					ok = false
+				case <-time.After(2 * time.Millisecond):
+					select {
+					case <-applierDone:
+						if len(s.watcher.eventChan) == 0 && atomic.LoadInt32(&busy) == 0 {
+							quiet++
+						}
+					default:
+					}
+				}
+			}
+		} else {
+			for t := B + 1; t < n && ok; t++ {
+				or.applyConfig(cfgAt(t))
+				ok = waitDone()
+			}
+		}
+	}
+	close(quit)
+	if !ok || atomic.LoadInt32(&crashed) != 0 {
+		obs.Crash = n
+	}
+	obs.Steps = []c20StepObs{c20Observe(s, nil, nil)}
+	obs.Log = c20End()
+	return
+}
+
+func c20GenBacklog(r *vfRand, adv bool, tier string) c20In {
+	in := c20In{Kinds: c20KindTable()}
+	in.Names = r.Range(2, 4)
+	pre := r.Range(1, 4)
+	burst := r.Range(11, 25)
+	nsteps := pre + 1 + burst
+	type cur struct{ kind, v int }
+	live := map[int]*cur{}
+	blockName := r.Intn(in.Names)
+	for t := 0; t < nsteps; t++ {
+		for n := 0; n < in.Names; n++ {
+			c := live[n]
+			if t == pre && n == blockName { // the stalled callback: this name appears or changes here
+				if c == nil {
+					live[n] = &cur{c20BizKinds[r.Intn(2)], r.Range(1, 3)}
+				} else {
+					c.v = c.v%3 + 1
+				}
+				continue
+			}
+			x := r.Intn(20)
+			switch {
+			case c == nil:
+				if x < 10 {
+					live[n] = &cur{c20BizKinds[r.Intn(2)], r.Range(1, 3)}
+				}
+			case x < 5:
+			case x < 12:
+				c.v = c.v%3 + 1
+			case x < 15:
+				delete(live, n)
+			case x < 17:
+				c.kind = 1 - c.kind
+			default:
+			}
+		}
+		step := [][3]int{}
+		for n := 0; n < in.Names; n++ {
+			if c := live[n]; c != nil {
+				step = append(step, [3]int{n, c.kind, c.v})
+			}
+		}
+		in.Steps = append(in.Steps, step)
+	}
+	in.Block = []int{pre, blockName}
+	if r.Chance(1, 3) {
+		in.NameStr = c20ExoticNames(r, in.Names)
+	}
+	in.Panics = [][3]int{}
+	if r.Bool() {
+		for t := 0; t < nsteps; t++ {
+			for n := 0; n < in.Names; n++ {
+				for op := 0; op < 3; op++ {
+					if r.Chance(1, 5) {
+						in.Panics = append(in.Panics, [3]int{t, op, n})
+					}
+				}
+			}
+		}
 	}
 	return in
 }
@@ -815,6 +1111,9 @@ func c20Gen(r *vfRand, adv bool, tier string) c20In {
 		}
 		in.Steps = append(in.Steps, step)
 	}
+	if r.Chance(1, 3) {
+		in.NameStr = c20ExoticNames(r, in.Names)
+	}
 	in.Panics = [][3]int{}
 	switch r.Intn(4) {
 	case 0: // no panics
@@ -853,6 +1152,14 @@ func TestVerifC20(t *testing.T) {
 		out.Emit(vfCase{ID: sc.ID, Src: sc.Src, Grp: "sup", In: in, Obs: c20Run(t, in)})
 		out.w.Flush() // a panic escaping in a goroutine kills the binary: keep what was observed so far
 	}
+	for _, sc := range vfStored("backlog") {
+		var in c20In
+		if err := json.Unmarshal(sc.In, &in); err != nil {
+			t.Fatalf("c20: stored case %s: %v", sc.ID, err)
+		}
+		out.Emit(vfCase{ID: sc.ID, Src: sc.Src, Grp: "backlog", In: in, Obs: c20RunBacklog(in)})
+		out.w.Flush()
+	}
 	for _, sc := range vfStored("join") {
 		var in c20JoinIn
 		if err := json.Unmarshal(sc.In, &in); err != nil {
@@ -873,6 +1180,12 @@ func TestVerifC20(t *testing.T) {
 	n := vfN(300)
 	for i := 0; i < n; i++ {
 		r := root.Fork(i)
+		if i%12 == 5 { // a stalled handler and a burst of snapshots
+			bin := c20GenBacklog(r, adv, vfTier())
+			out.Emit(vfCase{ID: fmt.Sprintf("backlog-%d-%d", vfSeed(), i), Src: src, Grp: "backlog", In: bin, Obs: c20RunBacklog(bin)})
+			out.w.Flush()
+			continue
+		}
 		if i%4 == 3 { // a quarter of the cases: a watcher joining late / concurrently with applyConfig
 			jin := c20GenJoin(r, adv, vfTier())
 			out.Emit(vfCase{ID: fmt.Sprintf("join-%d-%d", vfSeed(), i), Src: src, Grp: "join", In: jin, Obs: c20RunJoin(jin)})
